@@ -46,12 +46,13 @@ MAIN = "/main.html"
 class Ctx:
     """where in a file an item is printed"""
 
-    __slots__ = ("tagdepth", "depth0", "mainfile")
+    __slots__ = ("tagdepth", "depth0", "mainfile", "ctl")
 
-    def __init__(self, tagdepth=0, depth0=True, mainfile=True):
+    def __init__(self, tagdepth=0, depth0=True, mainfile=True, ctl=0):
         self.tagdepth = tagdepth  # number of enclosing tags (def/block/call) in this file
         self.depth0 = depth0  # directly in the body list of the main file
         self.mainfile = mainfile
+        self.ctl = ctl  # number of enclosing control structures (% if / % for / % try) in this file
 
     def key(self):
         return (self.tagdepth > 0, self.depth0, self.mainfile)
@@ -71,14 +72,14 @@ def allowed(kind, ctx):
 
 def body_ctx(kind, ctx):
     if kind in ("if", "ifelse", "for", "forl", "try"):
-        return Ctx(ctx.tagdepth, False, ctx.mainfile)
+        return Ctx(ctx.tagdepth, False, ctx.mainfile, ctx.ctl + 1)
     if kind == "include":
         return Ctx(0, False, False)
     if kind == "ns":
         return Ctx(1, False, False)
     if kind in ("inh", "inhs"):
         return Ctx(0, False, False)
-    return Ctx(ctx.tagdepth + 1, False, ctx.mainfile)
+    return Ctx(ctx.tagdepth + 1, False, ctx.mainfile, ctx.ctl)
 
 
 def gen_seqs(w, ctx, kinds, memo):
@@ -224,7 +225,7 @@ class Lowerer:
     # ---- entry
     def lower(self):
         main = self.newfile(MAIN)
-        self.emit_list(self.body, main, main.body_ops, Ctx(), ("body", None))
+        self.emit_list(self.body, main, main.body_ops, Ctx(), ())
         self.endfile(main)
         low = Lowered()
         low.files = {u: self.files[u].text() for u in self.order}
@@ -247,7 +248,7 @@ class Lowerer:
     def position(self, f, ops, ctx, encl):
         idx = self.npos
         self.npos += 1
-        self.positions.append({"top": ctx.tagdepth == 0, "uri": f.uri})
+        self.positions.append({"top": ctx.tagdepth == 0, "uri": f.uri, "ctl": ctx.ctl, "anc": list(encl)})
         if self.site is not None and idx == self.site and self.plant:
             self.emit_plant(f, ops, ctx)
 
@@ -280,7 +281,7 @@ class Lowerer:
             ops += [("expr", L, "v", "trim"), ("lit", nl)]
         elif kind == "c1":
             k = self.fresh()
-            f.w("<% p%d = 1 %>" % k + nl)
+            f.w("<%% p%d = 1 %%>" % k + nl)
             ops += [("code", L, L, ["p%d = 1" % k]), ("lit", nl)]
         elif kind == "c3":
             k = self.fresh()
@@ -313,13 +314,13 @@ class Lowerer:
         elif kind == "if":
             f.w("% if cT:" + nl)
             b = []
-            self.emit_list(it[1], f, b, bctx, encl)
+            self.emit_list(it[1], f, b, bctx, encl + (kind,))
             f.w("% endif" + nl)
             ops.append(("if", L, "cT", b, []))
         elif kind == "ifelse":
             f.w("% if cF:" + nl + a + nl + "% else:" + nl)
             b = []
-            self.emit_list(it[1], f, b, bctx, encl)
+            self.emit_list(it[1], f, b, bctx, encl + (kind,))
             f.w("% endif" + nl)
             ops.append(("if", L, "cF", [("lit", a + nl)], b))
         elif kind in ("for", "forl"):
@@ -328,14 +329,14 @@ class Lowerer:
             if kind == "forl":
                 b += [("loopidx", f.line), ("lit", nl)]
                 f.w("${loop.index}" + nl)
-            self.emit_list(it[1], f, b, bctx, encl)
+            self.emit_list(it[1], f, b, bctx, encl + (kind,))
             f.w("% endfor" + nl)
             ops.append(("for", L, "seq", b))
         elif kind == "try":
             f.w("% try:" + nl)
             b = []
-            self.emit_list(it[1], f, b, bctx, encl)
-            f.w("% finally:" + nl + a + nl + "% endtry" + nl)
+            self.emit_list(it[1], f, b, bctx, encl + (kind,))
+            f.w("% except KeyError:" + nl + a + nl + "% endtry" + nl)
             ops.append(("try", L, b, [("lit", a + nl)]))
         elif kind in ("defb", "defa", "defself", "defbuf"):
             k = self.fresh()
@@ -355,7 +356,7 @@ class Lowerer:
             f.w('<%%def name="%s()"%s>' % (name, attrs) + nl)
             b = [("lit", nl)]
             f.defs[name] = {"tagline": tagline, "ops": b, "toplevel": ctx.tagdepth == 0}
-            self.emit_list(it[1], f, b, bctx, ("def", tagline))
+            self.emit_list(it[1], f, b, bctx, encl + (kind,))
             f.w("</%def>" + nl)
             ops.append(("lit", nl))
             if kind != "defa":
@@ -365,7 +366,7 @@ class Lowerer:
             name = "b%d" % k if kind == "block" else None
             f.w(('<%%block name="%s">' % name if name else "<%block>") + nl)
             b = [("lit", nl)]
-            self.emit_list(it[1], f, b, bctx, ("block", L))
+            self.emit_list(it[1], f, b, bctx, encl + (kind,))
             f.w("</%block>" + nl)
             ops += [("block", L, name, b), ("lit", nl)]
         elif kind in ("calltag", "nstag"):
@@ -386,7 +387,7 @@ class Lowerer:
             else:
                 f.w("<%%self:%s>" % name + nl)
             b = [("lit", nl)]
-            self.emit_list(it[1], f, b, bctx, ("callbody", cl))
+            self.emit_list(it[1], f, b, bctx, encl + (kind,))
             f.w(("</%call>" if kind == "calltag" else "</%%self:%s>" % name) + nl)
             ops += [("calltag", cl, name, "bare" if kind == "calltag" else "self", b), ("lit", nl)]
         elif kind == "include":
@@ -395,7 +396,7 @@ class Lowerer:
             f.w('<%%include file="inc%d.html"/>' % k + nl)
             ops += [("include", L, uri), ("lit", nl)]
             g = self.newfile(uri)
-            self.emit_list(it[1], g, g.body_ops, bctx, ("body", None))
+            self.emit_list(it[1], g, g.body_ops, bctx, ())
             self.endfile(g)
         elif kind == "ns":
             k = self.fresh()
@@ -410,7 +411,7 @@ class Lowerer:
             g.w('<%def name="g()">' + nl)
             b = [("lit", nl)]
             g.defs["g"] = {"tagline": tagline, "ops": b, "toplevel": True}
-            self.emit_list(it[1], g, b, bctx, ("def", tagline))
+            self.emit_list(it[1], g, b, bctx, ("nsdef",))
             g.w("</%def>" + nl)
             g.body_ops.append(("lit", nl))
             self.endfile(g)
@@ -421,7 +422,7 @@ class Lowerer:
             f.inherits = uri
             self.base_uri = uri
             g = self.newfile(uri)
-            self.emit_list(it[1], g, g.body_ops, bctx, ("body", None))
+            self.emit_list(it[1], g, g.body_ops, bctx, ())
             cl = g.line
             g.w(("${next.body()}" if kind == "inh" else "${self.body()}") + nl + a + nl)
             g.body_ops += [("nextbody", cl), ("lit", nl + a + nl)]
@@ -639,10 +640,8 @@ class Interp:
             elif o == "loopidx":
                 self.out.append(str(loc["__loopidx"]))
             elif o == "try":
-                try:
-                    self.run(op[2], fr, loc)
-                finally:
-                    self.run(op[3], fr, loc)
+                # the handler (except KeyError) never matches a planted failure
+                self.run(op[2], fr, loc)
             elif o == "calldef":
                 self.calldef(fr, op[2], op[3], None)
             elif o == "calltag":
